@@ -512,7 +512,7 @@ func TestVerifC08(t *testing.T) {
 	defer rep.Write()
 	r := vfNewRng(8)
 	art := c08BuildArtifacts(t, 5)
-	nCases := vfScale(70, 1500)
+	nCases := vfScale(220, 1500)
 	var allOps, allImpl [][]string
 	for ci := 0; ci < nCases; ci++ {
 		e := &c08Env{t: t, art: art, raft: filepath.Join(t.TempDir(), "raft"), ids: map[string]int{}, idStr: map[int]string{}}
